@@ -122,6 +122,14 @@ func main() {
 
 		for nIn := 0; nIn <= 4; nIn++ {
 			nIn := nIn
+			pool := sortedPool(smallOrders[0], []int{0, 3, 3, 3, 2}[nIn])
+			batched(r, fmt.Sprintf("xsort-merge-lazy-args%d", nIn), ipow(len(pool), nIn), 256, workers, func(x *cx, t int) {
+				mergeLazyTuple(x, smallOrders[0], pool, nIn, t)
+			})
+		}
+		r.Floor("Merge with the caller's argument slice overwritten after the call", r.Table("argument integrity", "xsort.Merge: caller's argument slice overwritten after the call"), 1)
+		for nIn := 0; nIn <= 4; nIn++ {
+			nIn := nIn
 			batched(r, fmt.Sprintf("xmaps-sets%d", nIn), ipow(9, nIn), 256, workers, func(x *cx, t int) { xmapsSetTuple(x, nIn, t) })
 		}
 		r.Cases("xmaps-keys", nSmall(L), workers, func(c *vkit.Case) {
